@@ -95,8 +95,32 @@ def run(ctx):
                       'an operation of %s does not leave a generic %s cell invariant' % (v, fam))
         rep.sample('%s (ITA %d %s): ops=%s family=%s content(m,g,2)=%s' % (v, ref['no'], ref['hm'], rec['ops'], fam, content))
     _parser_lemmas(ctx)
+    _every_string_becomes_an_operation(ctx)
     rep.extra['pairs_composed'] = pairs
     rep.floor('R2', 'operation pairs composed', pairs, 61, where)
+
+
+def _every_string_becomes_an_operation(ctx):
+    """The property is observed at WyckoffSite::new(..).symmetries: the site's operations are the table's, one per string, in order
+    (the obligations of C10.R5 about WyckoffSite::new, imported: no filter, no de-duplication, each string parsed by itself)."""
+    from ..harness import Report
+    from .C10 import _carried
+    rep = ctx.rep
+    sub = type('Ctx', (), {})()
+    sub.__dict__.update(ctx.__dict__)
+    sub.rep = Report('C10', ctx.tier)
+    _carried(sub, main=False)
+    n = 0
+    for o in sub.rep.obligations:
+        if 'WyckoffSite::new' not in o['instance'] and 'each-string-parsed' not in o['instance']:
+            continue
+        n += 1
+        if o['ok']:
+            rep.ok('R6', 'C10:' + o['instance'], o['construct'], o['why'])
+        else:
+            rep.fail('R6', 'C10:' + o['instance'], o['construct'], o['why'], o['reason'])
+    rep.floor('R6', 'imported obligations on WyckoffSite::new (C10.R5)', n, 3)
+    rep.analysed |= sub.rep.analysed
 
 
 def _parser_lemmas(ctx):
